@@ -46,9 +46,12 @@ MentionsP == Templates \ {"selfbox", "selfvec", "selfkw", "selfpathq", "skipNoIn
 \* the where-clause must not depend on it
 \* "revattr": the attribute lists in the REVERSE of the declaration order (skip_type_params(U, T), bounds(U: .., T: ..), the
 \* bounds attribute before the skip attribute): spelling only, nothing may depend on the order in which a list names parameters
+\* "skipused": EVERY parameter is named in skip_type_params, also those that are part of the encoding (legal: a skipped
+\* parameter is merely not listed with a type; it is instantiated with a type that has type info, and the bound the member
+\* needs comes from the member's own type)
 \* "cratepath": #[scale_info(crate = ::sinfo)] with the library linked under that name and NOT reachable as ::scale_info:
 \* every path the derive emits (trait, builders, prelude, HasCompact bounds) must go through the given crate path
-Modifiers == {"lifetime", "lifetime2", "const", "default", "inline", "where", "skip", "custom", "enum", "tuple", "splitattr", "revattr", "cratepath"}
+Modifiers == {"lifetime", "lifetime2", "const", "default", "inline", "where", "skip", "custom", "enum", "tuple", "splitattr", "revattr", "cratepath", "skipused"}
 Params == {"T", "U"}
 VARIABLE d
 \* d = [np |-> 1..2, fields |-> Seq([t, p]), mods |-> SUBSET Modifiers]
@@ -62,6 +65,7 @@ FieldsOf(np) == LET ps == IF np = 1 THEN {"T"} ELSE Params
 \* always-covered pairs (interactions of the attribute paths with lifetimes and with skipping)
 CorePairs == {{"custom", "lifetime"}, {"custom", "lifetime2"}, {"skip", "custom"}, {"skip", "enum"}, {"skip", "where"}, {"skip", "inline"}, {"skip", "lifetime"}, {"splitattr", "enum"}, {"splitattr", "tuple"}, {"splitattr", "custom"},
               {"cratepath", "skip"}, {"cratepath", "custom"}, {"cratepath", "enum"}, {"cratepath", "tuple"}, {"cratepath", "lifetime"}, {"cratepath", "skip", "custom"},
+              {"skipused", "enum"}, {"skipused", "tuple"}, {"skipused", "where"}, {"skipused", "inline"}, {"skipused", "lifetime"}, {"skipused", "custom"}, {"skipused", "revattr"},
               {"revattr", "skip"}, {"revattr", "custom"}, {"revattr", "skip", "custom"}, {"revattr", "skip", "custom", "enum"}, {"revattr", "skip", "where"},
               {"where", "custom"}, {"inline", "custom"}, {"const", "custom"}, {"default", "custom"}, {"enum", "custom"}}      \* bounds(..) replaces the GENERATED bounds only
 ModSets == {M \in SUBSET Modifiers : (Cardinality(M) <= (IF Pairwise THEN 2 ELSE 1) \/ M \in CorePairs) /\ ~({"lifetime", "lifetime2"} \subseteq M) /\ ~({"enum", "tuple"} \subseteq M)
@@ -73,13 +77,20 @@ Ps == IF d.np = 1 THEN {"T"} ELSE Params
 UsedEnc(p) == \E i \in 1..Len(d.fields) : d.fields[i].p = p /\ d.fields[i].t \in Encoding
 Used(p) == \E i \in 1..Len(d.fields) : d.fields[i].p = p /\ d.fields[i].t \in MentionsP
 \* a parameter may be skipped only if it is not itself part of the encoding (premise)
-SkipSet == IF "skip" \in d.mods THEN {p \in Ps : ~UsedEnc(p)} ELSE {}
-WellFormed == \A i \in 1..Len(d.fields) : d.fields[i].p \in Ps
+SkipSet == IF "skipused" \in d.mods THEN Ps ELSE IF "skip" \in d.mods THEN {p \in Ps : ~UsedEnc(p)} ELSE {}
+\* (a self-referential member that needs its parameter's type info gets it from the PARAMETER's bound only: with that
+\* parameter skipped and no bounds(..) the definition is outside the premise)
+WellFormed == /\ \A i \in 1..Len(d.fields) : d.fields[i].p \in Ps
+              /\ ~({"skip", "skipused"} \subseteq d.mods)
+              /\ ("skipused" \in d.mods /\ "custom" \notin d.mods) => \A i \in 1..Len(d.fields) : d.fields[i].t # "selfmix"
 (* the where-clause of the generated impl, per trait_bounds.rs:
    - with bounds(..): exactly the custom predicates (here: every non-skipped parameter and every p::A used)
    - otherwise: a bound for every member type that mentions a parameter, is not #[codec(skip)] (the types of
      skipped members need no type info) and does not mention the type's own name; plus every non-skipped parameter *)
 BoundField(f) == f.t \in MentionsP /\ f.t \notin Skipped /\ f.t \notin SelfRef
+\* p: TypeInfo is available for member f: from the parameter's own bound, from the bound on the member's type, or
+\* (bounds(..)) because the custom predicates name every parameter that is part of the encoding
+Provided(f) == f.p \notin SkipSet \/ BoundField(f) \/ "custom" \in d.mods
 AssocBound(p) ==      \* is `p::A: TypeInfo` in the where-clause
   IF "custom" \in d.mods THEN \E i \in 1..Len(d.fields) : d.fields[i].p = p /\ d.fields[i].t \in NeedsCfg
   ELSE \E i \in 1..Len(d.fields) : d.fields[i].p = p /\ d.fields[i].t \in {"assoc", "qassoc", "selfassoc", "selfqassoc"}
@@ -90,9 +101,9 @@ VecAssocBound(p) == "custom" \notin d.mods /\ \E i \in 1..Len(d.fields) : d.fiel
 MemberOK(f) ==
   CASE f.t \in Skipped -> TRUE                                              \* not described at all
     [] f.t \in {"compactc", "concrete", "phantom", "selfbox", "selfvec", "selfkw", "selfpathq"} -> TRUE
-    [] f.t \in Encoding \ {"selfmix"} -> f.p \notin SkipSet                 \* p: TypeInfo from the parameter bound
-    [] f.t = "selfmix" -> f.p \notin SkipSet
-    [] f.t = "compactp" -> f.p \notin SkipSet                               \* p: TypeInfo (parameter bound) and p: HasCompact (member bound)
+    [] f.t \in Encoding \ {"selfmix"} -> Provided(f)                        \* p: TypeInfo from the parameter bound or the member bound
+    [] f.t = "selfmix" -> Provided(f)
+    [] f.t = "compactp" -> Provided(f)                                      \* p: TypeInfo and p: HasCompact (member bound)
     [] f.t \in NamedLikeSelf -> TRUE                                         \* bound on the member type itself
     [] f.t = "compactassoc" -> TRUE                                         \* the member bound must give HasCompact AND TypeInfo
     [] f.t \in {"assoc", "qassoc"} -> AssocBound(f.p)
